@@ -176,6 +176,34 @@ func runConn(o ipOpt, reject bool, f ipFault, public bool) ipRun {
 	echo := cmds.NewBuilder(cmds.NoSlot).Echo().Message("user").Build()
 	var err error
 	run := ipRun{firstUser: -1}
+	panicked := false
+	func() {
+		defer func() {
+			if r := recover(); r != nil {
+				panicked = true
+			}
+		}()
+		run.connect(o, srv, co, ctx, echo, public, &err)
+	}()
+	switch {
+	case panicked:
+		run.res = "panic"
+	case err == nil:
+		run.res = "ok"
+	case errors.Is(err, errCred):
+		run.res = "fail:cred"
+	case errors.Is(err, rueidis.ErrNoCache):
+		run.res = "fail:nocache"
+	default:
+		run.res = "fail:err"
+	}
+	run.collect(srv, public)
+	return run
+}
+
+func (run *ipRun) connect(o ipOpt, srv *fakeredis.Server, co rueidis.ClientOption, ctx context.Context, echo rueidis.Completed, public bool, perr *error) {
+	var err error
+	defer func() { *perr = err }()
 	if public {
 		co.ForceSingleClient = true
 		var c rueidis.Client
@@ -200,16 +228,9 @@ func runConn(o ipOpt, reject bool, f ipFault, public bool) ipRun {
 			vp.Close()
 		}
 	}
-	switch {
-	case err == nil:
-		run.res = "ok"
-	case errors.Is(err, errCred):
-		run.res = "fail:cred"
-	case errors.Is(err, rueidis.ErrNoCache):
-		run.res = "fail:nocache"
-	default:
-		run.res = "fail:err"
-	}
+}
+
+func (run *ipRun) collect(srv *fakeredis.Server, public bool) {
 	replies := map[uint64]string{}
 	for _, out := range srv.ConnOuts(1) {
 		if !out.IsPush {
@@ -236,6 +257,8 @@ func runConn(o ipOpt, reject bool, f ipFault, public bool) ipRun {
 				cl = 'e'
 			case e.Argv[0] == "HELLO" && len(e.Argv) > 1:
 				cl = e.Argv[1][0]
+			case e.Argv[0] == "INFO":
+				cl = 'z' // the fake's INFO text always carries availability_zone
 			default:
 				cl = 's'
 			}
@@ -250,7 +273,6 @@ func runConn(o ipOpt, reject bool, f ipFault, public bool) ipRun {
 	if run.res == "ok" {
 		run.res = fmt.Sprintf("ok%d", run.proto)
 	}
-	return run
 }
 
 func cmdsText(cs [][]string) string {
@@ -282,6 +304,17 @@ func splitAttempts(setup [][]string) int {
 func (c *Ctx) ipCase(o ipOpt, reject bool, f ipFault, public bool) {
 	run := runConn(o, reject, f, public)
 	k := splitAttempts(run.setup)
+	if f.kind == "x" && f.at >= 0 && f.at <= len(run.setup) {
+		// a dropped connection: DoMulti's abort path hands the SAME transport error to every member of
+		// the pipelined batch, also to those whose replies had arrived (pipe.go syncDoMulti `abort:`)
+		lo, hi := 0, k
+		if f.at >= k {
+			lo, hi = k, len(run.setup)
+		}
+		for i := lo; i < hi; i++ {
+			run.classes[i] = 'x'
+		}
+	}
 	verb := "conn"
 	if public {
 		verb = "client"
@@ -293,8 +326,21 @@ func (c *Ctx) ipCase(o ipOpt, reject bool, f ipFault, public bool) {
 		c.Hit("fault:" + f.kind)
 	}
 	// oracle: judged by the specification from the observed log
-	orc := fmt.Sprintf("!sess %s served=%s proto=%d log=%s rep=%s", o.words(), b01(run.served), run.proto, cmdsText(run.setup), dash(string(run.classes)))
-	c.Emit(orc, "ok", false)
+	// (assumption: a server answers "unknown command 'HELLO'" only to HELLO; the injected look-alike
+	// error on other steps is tolerated by the RESP2 loop as coded and is exercised on model lines only)
+	realistic := true
+	for i, cl := range run.classes {
+		if cl == 'h' && run.setup[i][0] != "HELLO" {
+			realistic = false
+		}
+	}
+	if realistic {
+		orc := fmt.Sprintf("!sess %s served=%s proto=%d log=%s rep=%s", o.words(), b01(run.served), run.proto, cmdsText(run.setup), dash(string(run.classes)))
+		c.Emit(orc, "ok", false)
+	}
+	if run.res == "panic" {
+		c.Fail("initplan:panic:az-info-on-nil-map", op, "_newPipe panics (assignment to entry in nil map, p.info) when HELLO is rejected and INFO SERVER reports availability_zone")
+	}
 	if run.served && run.firstUser >= 0 && run.firstUser < len(run.setup) {
 		c.Fail("initplan:user-before-setup", op, fmt.Sprintf("user command at position %d of the connection precedes setup commands (%d setup commands logged)", run.firstUser, len(run.setup)))
 	}
@@ -382,11 +428,8 @@ func init() {
 					}
 				}
 			}
-			// 1. every combination x protocol, no fault (thorough) / a third of them (quick)
-			for i, o := range all {
-				if c.Tier == "quick" && i%3 != int(c.Rng.Uint64()%3) {
-					continue
-				}
+			// 1. every combination x protocol, no fault
+			for _, o := range all {
 				c.ipCase(o, false, ipFault{at: -1}, false)
 				c.ipCase(o, true, ipFault{at: -1}, false)
 			}
